@@ -18,7 +18,9 @@ THEOREMS = [
 ]
 RULE = ("cases = multiset of 1-6 ballots mixing ranking-only / scores-only / both / neither, with and without ids and "
         "voter sets, int / float / Fraction weights, repeated contents; operations: condense (in the given and in a "
-        "permuted order, and twice), == in both operand orders against a permuted / split / perturbed copy, +, derived "
+        "permuted order, and twice), == in both operand orders against a permuted / split / perturbed copy and against a "
+        "copy in which two equal-weight ballots exchanged their score dictionaries (same weight per ranking and per "
+        "dictionary, other contents), +, derived "
         "fields, duplicate candidate lists, attribute assignment, float->Fraction conversion; non-trivial = at least two "
         "ballots with a repeated content; distinct = distinct (ballots, operation)")
 TRUSTED = ["modelled, not verified: pydantic frozen=True and Fraction.limit_denominator (both observed by Python-side "
